@@ -40,8 +40,8 @@ macro_rules! impl_derivatives {
                         let pow3 = self.re.powi(exp - 3);
                         let f0 = pow3.clone() * &self.re * &self.re * &self.re;
                         let f1 = pow3.clone() * &self.re * &self.re * F::from(exp).unwrap();
-                        second!($deriv, let f2 = pow3.clone() * &self.re * F::from(exp * (exp - 1)).unwrap(););
-                        third!($deriv, let f3 = pow3 * F::from(exp * (exp - 1) * (exp - 2)).unwrap(););
+                        second!($deriv, let f2 = pow3.clone() * &self.re * (F::from(exp).unwrap() * F::from(exp - 1).unwrap()););
+                        third!($deriv, let f3 = pow3 * (F::from(exp).unwrap() * F::from(exp - 1).unwrap() * F::from(exp - 2).unwrap()););
                         chain_rule!($deriv, Self::chain_rule(self, f0, f1, f2, f3))
                     }
                 }
